@@ -97,6 +97,33 @@ CHECKS = {
             "root types (105k states quick); inferred type must be unknown or the spec type; typecheck accepts every "
             "admissible set and rejects literals of other kinds; visited in two orders.",
             "Trusted: spec/Typing.tla ReturnType (transcribed from OData 4.01)."),
+    "C01": ("DESIGN.md 6/C01",
+            "TLC enumerates typed scalar filters (MC_Sem) and computes with the TLA+ evaluator Sem!Eval the valuations "
+            "for which each filter is TRUE; replayed through AstToSqliteSqlVisitor on a real SQLite database; known deviations matched "
+            "only if the result equals Sem under that named deviation",
+            "Exhaustive per profile (logic/arith/strings/misc) up to the operator bound plus TLC-simulated deep filters; "
+            "result sets (row ids over the cross product of the value domain incl. NULLs, negatives, LIKE/SQL "
+            "metacharacters) must equal the spec's. Both the minimal and the fully parenthesised rendering are executed.",
+            "Trusted: spec/Sem.tla (Kleene logic, NULL propagation; comparisons with NULL are unknown as the property "
+            "states), SQLite 3.40, harness/backends.py fixtures. ASCII lower-case data; non-zero literal divisors."),
+    "C02": ("DESIGN.md 6/C02",
+            "TLC enumerates typed scalar filters (MC_Sem) and computes with the TLA+ evaluator Sem!Eval the valuations "
+            "for which each filter is TRUE; replayed through odata_query.django.apply_odata_query (Django configured in-process by the harness) on a real SQLite database; known deviations matched "
+            "only if the result equals Sem under that named deviation",
+            "Exhaustive per profile (logic/arith/strings/misc) up to the operator bound plus TLC-simulated deep filters; "
+            "result sets (row ids over the cross product of the value domain incl. NULLs, negatives, LIKE/SQL "
+            "metacharacters) must equal the spec's. Quick: <=1 operator exhaustive + ~1000 simulated filters of up to 7 operators.",
+            "Trusted: spec/Sem.tla (Kleene logic, NULL propagation; comparisons with NULL are unknown as the property "
+            "states), SQLite 3.40, harness/backends.py fixtures. ASCII lower-case data; non-zero literal divisors."),
+    "C03": ("DESIGN.md 6/C03",
+            "TLC enumerates typed scalar filters (MC_Sem) and computes with the TLA+ evaluator Sem!Eval the valuations "
+            "for which each filter is TRUE; replayed through apply_odata_query / apply_odata_core (select(Model), session.query(Model), select(table)) on a real SQLite database; known deviations matched "
+            "only if the result equals Sem under that named deviation",
+            "Exhaustive per profile (logic/arith/strings/misc) up to the operator bound plus TLC-simulated deep filters; "
+            "result sets (row ids over the cross product of the value domain incl. NULLs, negatives, LIKE/SQL "
+            "metacharacters) must equal the spec's. All three entry styles on every simulated and every 4th enumerated filter, the 2.x ORM style on all.",
+            "Trusted: spec/Sem.tla (Kleene logic, NULL propagation; comparisons with NULL are unknown as the property "
+            "states), SQLite 3.40, harness/backends.py fixtures. ASCII lower-case data; non-zero literal divisors."),
 }
 
 PENDING = ["C01", "C02", "C03", "C04", "C06", "C07", "C08", "C09", "C10", "C11", "C12", "C13", "C14", "C15",
